@@ -373,3 +373,7 @@ func RunWithDeadline(label string, steps int, d time.Duration, f func()) {
 		Assert(false, label)
 	}
 }
+
+// SchedPreemptAtLoads makes every atomic load (for the risor VM: every
+// instruction boundary) a voluntary preemption point in the engine.
+func SchedPreemptAtLoads(on bool) {}
